@@ -35,16 +35,20 @@ def r_unique_names(ck: Checker) -> None:
         func = ck.func(f"utils.globals:UniqueNames.{name}")
         itf = ck.interp(func)
         rets = [r for r in returns_of(func) if r.value is not None]
-        ck.need(len(rets) == 1, f"{name} returns the found predicate")
-        p = unparse(rets[0].value)  # type: ignore[arg-type]
-        reg = [c for c in attr_calls(func, "add") if unparse(c.func.value) == "self.predicates" and unparse(c.args[0]) == p]  # type: ignore[attr-defined]
-        if reg:
-            ck.guard(f"{name}: the returned predicate is not in the known vocabulary", func, reg[0], f"{p} not in self.predicates", "freshness")
-        else:
-            ck.guard(f"{name}: the returned predicate is not in the known vocabulary", func, rets[0], f"{p} not in self.predicates", "freshness")
-        ok = len(reg) == 1 and enclosing_loop(func, reg[0]) is None and reg[0].lineno < rets[0].lineno
-        ck.add(f"{name}: the returned predicate becomes part of the vocabulary", ok, func, rets[0], f"self.predicates.add({p}) before the return: {ok}",
-               "otherwise the next request from the same pass returns the same name again: two auxiliary predicates share one name")
+        ck.need(len(rets) >= 1, f"{name} returns the found predicate")
+        for ret in rets:
+            p = unparse(ret.value)  # type: ignore[arg-type]
+            reg = [c for c in attr_calls(func, "add") if unparse(c.func.value) == "self.predicates" and unparse(c.args[0]) == p]  # type: ignore[attr-defined]
+            itm = ck.interp(func, None, mark_stmts={id(enclosing_stmt(func, c)): "registered" for c in reg})
+            sts = itm.states(ret)
+            on_all = bool(sts) and all("registered" in s_.marks for s_ in sts)
+            if reg and on_all and len(reg) == 1:
+                ck.guard(f"{name}: the returned predicate is not in the known vocabulary", func, reg[0], f"{p} not in self.predicates", "freshness")
+            else:
+                ck.guard(f"{name}: the returned predicate is not in the known vocabulary", func, ret, f"{p} not in self.predicates", "freshness")
+            ok = on_all and all(enclosing_loop(func, c) is None for c in reg)
+            ck.add(f"{name}: the returned predicate becomes part of the vocabulary", ok, func, ret, f"self.predicates.add({p}) on every path to `{fmt(ret)}`: {ok}",
+                   "otherwise the next request from the same pass returns the same name again: two auxiliary predicates share one name")
         preds = resolved_calls(ck.prg, func, "ngo.utils.ast:Predicate")
         ar = {unparse(c.args[1]) for c in preds}
         ck.add(f"{name}: candidates have the requested arity", ar == {func.params()[-1]}, func, func.node, f"arity arguments {sorted(ar)}", "freshness is per (name, arity)")
@@ -82,10 +86,27 @@ def r_domain_names(ck: Checker) -> None:
             continue
         for call in resolved_calls(ck.prg, other, "ngo.utils.ast:Predicate"):
             name = call.args[0] if call.args else None
-            if isinstance(name, ast.JoinedStr) or (isinstance(name, ast.Constant) and isinstance(name.value, str) and name.value.startswith("__")):
+            built = name is not None and any(isinstance(x, ast.JoinedStr) or (isinstance(x, ast.Constant) and isinstance(x.value, str) and x.value != "") or (isinstance(x, ast.Name) and x.id.endswith("_STR")) for x in ast.walk(name))
+            if built:
                 users += 1
                 ck.add(f"{other.name}: invented name goes through _predicate", False, other, call, f"`{short(unparse(call), 80)}` builds an invented name directly", "no freshness check at all")
     ck.notes["C07.domain-names.direct"] = users
+    # the named helpers that invent min / max / next / chain / dom predicates hand out what _predicate returned
+    n_h = 0
+    for hname in ("min_anon_predicate", "max_anon_predicate", "next_anon_predicate", "chain_pred", "dom_named_predicate"):
+        h = ck.prg.funcs.get(f"ngo.dependency:DomainPredicates.{hname}")
+        if h is None:
+            continue
+        ith = ck.interp(h)
+        for ret in returns_of(h):
+            if ret.value is None:
+                continue
+            n_h += 1
+            txts = ith.texts(ret, ret.value)
+            okh = bool(txts) and all(t.startswith("self._predicate(") for t in txts)
+            ck.add(f"{hname}: the invented predicate comes from _predicate", okh, h, ret, f"returns `{short(' | '.join(sorted(txts)), 100)}`",
+                   "a name built with the plain constructor is never compared with the predicates of the source: a program that already has `__next_0_0__dom_p/2` gets ngo's rules added to its own predicate")
+    ck.need(n_h >= 4, "helpers that invent domain predicates")
 
 
 def _head_name_sources(ck: Checker, func: Func, rule_call: ast.Call) -> set[str]:
